@@ -217,11 +217,28 @@ pub struct Model {
     pub atts: BTreeSet<(usize, usize)>,
     /// number of label groups (0 is read as 1)
     pub groups: usize,
+    /// wide groups: 16 labels per group of which up to 15 are live (reference by brute force up to 13 live
+    /// arguments, by the backtracking reference for 14-15)
+    pub wide: bool,
 }
 
 impl Model {
     pub fn n_groups(&self) -> usize {
         self.groups.max(1)
+    }
+    pub fn universe(&self) -> usize {
+        if self.wide {
+            GROUP_STRIDE
+        } else {
+            UNIVERSE
+        }
+    }
+    pub fn max_live(&self) -> usize {
+        if self.wide {
+            GROUP_STRIDE - 1
+        } else {
+            MAX_LIVE
+        }
     }
     fn group_of(l: usize) -> usize {
         l / GROUP_STRIDE
@@ -236,7 +253,7 @@ impl Model {
     fn dead_labels(&self) -> Vec<usize> {
         // labels of the universe that are not live, plus one that is never created
         let mut v: Vec<usize> = (0..self.n_groups())
-            .flat_map(|g| (0..UNIVERSE).map(move |k| g * GROUP_STRIDE + k))
+            .flat_map(|g| (0..self.universe()).map(move |k| g * GROUP_STRIDE + k))
             .filter(|l| !self.live.contains(l))
             .collect();
         v.push(9_999);
@@ -252,10 +269,10 @@ fn resolve(op: &OpT, m: &Model, kind: DynKind) -> Option<Step> {
             // the group is taken from the low bits, the label inside the group from the whole value
             let g = (*r as usize) % m.n_groups();
             let in_group = live.iter().filter(|l| Model::group_of(**l) == g).count();
-            if in_group >= MAX_LIVE {
+            if in_group >= m.max_live() {
                 return None;
             }
-            let free: Vec<usize> = (0..UNIVERSE).map(|k| g * GROUP_STRIDE + k).filter(|l| !m.live.contains(l)).collect();
+            let free: Vec<usize> = (0..m.universe()).map(|k| g * GROUP_STRIDE + k).filter(|l| !m.live.contains(l)).collect();
             Some(Step::NewArg(free[idx(*r, free.len())]))
         }
         OpT::Inflate(k) => Some(Step::Inflate(*k as usize % 48 + 1)),
@@ -426,12 +443,15 @@ impl Dynamic {
         let (cs, ss) = kind.sems();
         let sem = if cred { cs.unwrap() } else { ss.unwrap() };
         // every group is a union of connected components: extensions of the whole are products
-        let parts: Vec<(usize, Vec<usize>, Vec<u32>)> = (0..m.n_groups())
-            .map(|g| {
-                let (gg, live) = m.group_graph(g);
-                (g, live, Fams::new(&gg).exts(sem))
-            })
-            .collect();
+        let mut parts: Vec<(usize, Vec<usize>, Vec<u32>)> = vec![];
+        for g in 0..m.n_groups() {
+            let (gg, live) = m.group_graph(g);
+            match Fams::auto(&gg) {
+                Some(f) => parts.push((g, live, f.exts(sem))),
+                // too many extensions for the backtracking reference (wide groups only): the query is skipped
+                None => return Ok(()),
+            }
+        }
         let exists_all = parts.iter().all(|(_, _, e)| !e.is_empty());
         let (_, live, exts) = parts.iter().find(|(g, _, _)| *g == ga).cloned().unwrap();
         let pos = live.iter().position(|x| *x == a).unwrap();
@@ -579,7 +599,7 @@ impl Prop for Dynamic {
             0usize..ALL_KINDS.len() + 6,
             0u8..FACTORS.len() as u8,
             prop_oneof![7 => vec(op_strategy(faults), 5..=maxlen), 1 => vec(op_strategy(faults), maxlen..=3 * maxlen)],
-            prop_oneof![3 => Just(1u8), 1 => 2u8..=5],
+            prop_oneof![9 => Just(1u8), 3 => 2u8..=5, 1 => Just(101u8), 1 => Just(102u8)],
         )
             .prop_map(|(k, factor, ops, groups)| {
                 // the five incremental kinds get extra weight
@@ -611,7 +631,11 @@ impl Prop for Dynamic {
             Ok(s) => s,
             Err(p) => return Err(Failure::new(format!("{}/{:?}/constructor-panic", self.pid(), kind), p)),
         };
-        let mut m = Model { groups: case.groups as usize, ..Model::default() };
+        // groups >= 100 encodes "wide groups" (see Model::wide), the number of groups being the remainder
+        let mut m = Model { groups: (case.groups % 100) as usize, wide: case.groups >= 100, ..Model::default() };
+        if m.wide {
+            rec.class("wide-groups-up-to-15-live-arguments");
+        }
         let mut steps: Vec<Step> = vec![];
         // bookkeeping for the non-triviality rule
         let mut ever_live: BTreeSet<usize> = BTreeSet::new();
